@@ -2,7 +2,7 @@
    regenerates from /repo's SimpleString.cpp on every run (gen/Gen_Leaf.v).  A change to one of these leaf functions in the
    source changes Gen_Leaf.v and these lemmas are re-checked against it. *)
 From Coq Require Import ZArith NArith Bool List Lia.
-From CppUVerif Require Import lib.CSem lib.Str gen.Gen_Leaf C13_Model.
+From CppUVerif Require Import lib.CSem lib.Str gen.Gen_LeafC13 C13_Model.
 Import ListNotations.
 
 Definition all_bytes : list N := map N.of_nat (seq 0 256).
